@@ -41,7 +41,7 @@ SLICES = {
         "C03": dict(MaxDial=3, MaxIdles="{1}", AllowDrop="TRUE"),
         "C04": dict(MaxDial=3),
         "C05": dict(Protos="{TRUE, FALSE}", MaxTick=1, IdleTimeouts="{0, 2}", Faults="CloseOnly", MaxDial=3, MaxIdles="{1}"),
-        "C06": dict(NOrig=2, MaxDial=3, Faults="SomeFaults"),
+        "C06": dict(NOrig=2, MaxDial=3, MaxIdles="{1}", Faults="CloseOnly"),   # (SomeFaults x MaxIdles {1,2}: 1.6e8 states, > 55 min under load)
         "C14": dict(MaxDial=3),
         "C15": dict(MaxIdles="{0, 1, 2}", Protos="{FALSE}", MaxDial=3, Faults="CloseOnly"),
     },
